@@ -102,7 +102,12 @@ def simulate(sc, full_digest=True) -> Run:
     try:
         pool = [build(s, None) for s in sc.get("pool", [])]
         # only for pools of values without lazily filled slots (DateTime/Date): the scenario asks for it
-        run.pool_obs = [observe(v) for v in pool] if sc.get("observe_pool") else None
+        if sc.get("observe_pool") == "fresh-copy":
+            # observe a second instance of every pool value: the shared one stays untouched
+            # (its lazily filled slots must be first read by the client threads)
+            run.pool_obs = [observe(build(s, None)) for s in sc.get("pool", [])]
+        else:
+            run.pool_obs = [observe(v) for v in pool] if sc.get("observe_pool") else None
         run.pool_fold = [raw_fold(v) for v in pool]
         run.regw = [(0, 0, r, v) for r, v in world.regs().items()]
         run.fslog = [(0, 0, fs_snapshot(world))]
@@ -351,6 +356,10 @@ def decide(sc, prop=None, full_digest=True, cold=None):
         v2, s2 = prop.l2_check(run)
         viols.extend(v2)
         stats.update(s2)
+    if cold is not None and prop is not None and hasattr(prop, "cold_l2"):
+        v4, s4 = prop.cold_l2(run, cold)
+        viols.extend(v4)
+        stats.update(s4)
     get_world().reset({})
     return run, viols, stats
 
